@@ -946,13 +946,13 @@ package saml
 //@    t, _ = time.Parse("2006-01-02T15:04:05.999999999", text); return t }
 //@ contract (*RelaxedTime).UnmarshalText
 //@ ensures[C15,C02] empty_is_zero: len(text) == 0 ==> err == nil
-//@ ensures[C15,C02,C18] value: err == nil && len(text) > 0 ==> time.Time(*m) == parsedInstant(string(text)).Round(time.Millisecond)
+//@ ensures[C15,C02,C05,C18] value: err == nil && len(text) > 0 ==> time.Time(*m) == parsedInstant(string(text)).Round(time.Millisecond)
 //@ -- every accepted layout is read by time.Parse, i.e. a text without zone designator is taken as UTC, never as the host's
 //@ -- local zone (freshness of responses, assertions and logout responses is decided on these instants: C02, C18)
-//@ assert@call[C15,C02,C18] Parse #1 (layout string, value string) first_layout: layout == time.RFC3339 && value == string(text)
-//@ assert@call[C15,C02,C18] Parse #2 (layout string, value string) second_layout: layout == time.RFC3339Nano && value == string(text)
-//@ assert@call[C15,C02,C18] Parse #3 (layout string, value string) third_layout: layout == "2006-01-02T15:04:05.999999999" && value == string(text)
-//@ assert@call[C15,C02,C18] Round #0 (t time.Time, d time.Duration) millisecond: d == time.Millisecond
+//@ assert@call[C15,C02,C05,C18] Parse #1 (layout string, value string) first_layout: layout == time.RFC3339 && value == string(text)
+//@ assert@call[C15,C02,C05,C18] Parse #2 (layout string, value string) second_layout: layout == time.RFC3339Nano && value == string(text)
+//@ assert@call[C15,C02,C05,C18] Parse #3 (layout string, value string) third_layout: layout == "2006-01-02T15:04:05.999999999" && value == string(text)
+//@ assert@call[C15,C02,C05,C18] Round #0 (t time.Time, d time.Duration) millisecond: d == time.Millisecond
 
 //@ -- the value of an accepted duration text, in terms of the (assumed deterministic) lexical functions: the exact sum
 //@ -- of its components, the seconds field taken at its exact decimal value (DecimalNs)
